@@ -75,6 +75,8 @@ pub enum Op {
     /// request a GC and, from inside that GC's stop_all_mutators, call prepare_to_fork(); afterwards wait for
     /// every worker thread to exit, then after_fork()
     ForkDuringGc { m: u8 },
+    /// C24: dump every side metadata spec in use by the instance and check pairwise disjointness
+    CheckSideSpecs { seed: u32 },
     /// SATB pattern: move the referent of the first non-null field of obj(src) into a field of obj(dst),
     /// null the original field (both through the barrier) and drop every root naming the referent
     Hide { m: u8, src: u8, dst: u8 },
